@@ -136,6 +136,9 @@ func init() {
 		}
 		return e.i64(uint64(n))
 	}
+	intrinsics[vrtPkg+".ThreadID"] = func(e *Engine, st *State, th *Thread, args []Value, pos token.Pos) Value {
+		return e.i64(uint64(th.id))
+	}
 	intrinsics[vrtPkg+".NumThreads"] = func(e *Engine, st *State, th *Thread, args []Value, pos token.Pos) Value {
 		return e.i64(uint64(len(st.threads)))
 	}
